@@ -392,3 +392,33 @@ def shrink_candidates(case):
             if c['k'] != case['k'] or len(G.all_chains(c)) != len(G.all_chains(case)):
                 continue
         yield c
+
+
+def small_scope_cases(kind='design'):
+    """complete enumeration of a small scope: every line of 1-3 elements over {short fibre, long fibre, Fused,
+    user Edfa} from R0 to R1 (default configuration, padding 10, max_length 150 km)"""
+    import itertools
+    alphabet = {
+        'f': lambda u: {"uid": u, "type": "Fiber", "type_variety": "SSMF",
+                        "params": {"length": 20.0, "length_units": "km", "loss_coef": 0.2, "con_in": None, "con_out": None}},
+        'F': lambda u: {"uid": u, "type": "Fiber", "type_variety": "SSMF",
+                        "params": {"length": 310.0, "length_units": "km", "loss_coef": 0.2, "con_in": 0.5, "con_out": None}},
+        'u': lambda u: {"uid": u, "type": "Fused", "params": {"loss": 1}},
+        'e': lambda u: {"uid": u, "type": "Edfa"},
+    }
+    span = {'power_mode': True, 'delta_power_range_db': [-2, 3, 0.5], 'power_slope': 0.3, 'span_loss_ref': 20.0,
+            'padding': 10, 'EOL': 0, 'con_in': 0, 'con_out': 0, 'max_length': 150, 'length_units': 'km',
+            'voa_margin': 1, 'voa_step': 0.5, 'target_extended_gain': 2.5, 'max_fiber_lineic_loss_for_raman': 0.25}
+    for n in (1, 2, 3):
+        for word in itertools.product('fFue', repeat=n):
+            line = [alphabet[c](f'x{i}') for i, c in enumerate(word)]
+            yield {'kind': kind, 'k': 1,
+                   'chains': [{'src': 'R0', 'dst': 'R1', 'line': line},
+                              {'src': 'R1', 'dst': 'R0', 'line': [alphabet['f']('back')]}],
+                   'trx_src': None, 'roadms': {'R0': {}, 'R1': {}}, 'per_degree': {}, 'span': dict(span),
+                   'si': {'power_dbm': 0, 'tx_power_dbm': 0, 'use_si_channel_count_for_design': True},
+                   'edfa_mod': {}, 'has_raman': False}
+
+
+def exhaustive():
+    yield from small_scope_cases('design')
